@@ -119,7 +119,23 @@ def run_case(run, drv, case_seed, tier):
     single = rng.random() < 0.2
     kind = rng.choice({1: ["v1"], 2: ["a2", "v2"], 3: ["a3", "hy"]}[version])
     files = metas.small_tree(rng, pl, single)
-    forced_link = case_seed < 0
+    forced_link = case_seed in (-1, -2)
+    if case_seed in (-3, -4):
+        # a payload literally named '~' (single file / directory given by its bare relative name)
+        from harness.common import Blob
+        version, single, kind = (1, True, "v1") if case_seed == -3 else (3, True, "a3")
+        files = [("~", Blob.rand(9, 20000))]
+    if case_seed in (-5, -6):
+        # two names of ONE inode (hard link), several pieces long: a copy of the tree elsewhere has
+        # two independent files with the same bytes - the info dictionary must not notice
+        import copy
+        from harness.common import Blob
+        version, single = 3, False
+        kind = "a3" if case_seed == -5 else "hy"
+        first = Blob.rand(11, 40000)
+        twin = copy.copy(first)
+        twin.hardlink_of = "a/first.bin"
+        files = gen.FileList([("a/first.bin", first), ("b/second-name.bin", twin), ("c", Blob.rand(12, 7))])
     if forced_link:
         # fixed shapes every run includes: a directory reachable under two names, for v1 and hybrid
         from harness.common import Blob
@@ -287,7 +303,7 @@ def run(tier, seed, replay=None):
     run = Run("C08", tier, seed, RULE)
     drv = Driver()
     seeds = [replay["case"]["case_seed"]] if replay else \
-        [-1, -2] + [run.rng.randrange(10 ** 9) for _ in range(40 if tier == "quick" else 400)]
+        [-1, -2, -3, -4, -5, -6] + [run.rng.randrange(10 ** 9) for _ in range(40 if tier == "quick" else 400)]
     from harness.common import guarded
     for s in seeds:
         guarded(run, {"case_seed": s}, run_case, run, drv, s, tier)
